@@ -4,15 +4,67 @@ import (
 	"go/ast"
 	"go/constant"
 	"go/token"
+	"regexp"
 	"strconv"
 	"strings"
 )
 
 func init() { extractors["C17"] = extractC17 }
 
+var c17var = regexp.MustCompile(`\$[a-z]+`)
+
+// c17match matches source text printed from an alpha-normalised declaration (`normalise`, c07.go: receiver _r,
+// parameters _p0, _p1, …, every local the placeholder of its declaration) against a pattern in which `$x` stands for
+// a local variable: the same `$x` must be the same variable everywhere, within the pattern and across calls that share
+// `bind` (a variable not yet bound is bound by the match). White space is ignored. With `whole` the pattern must
+// cover the text, otherwise it may occur anywhere in it. So `$names=append($names,$k)` is "some local is appended
+// the local $k", whatever the two are called in the source.
+func c17match(text, pattern string, whole bool, bind map[string]string) bool {
+	nows := func(s string) string { return strings.Join(strings.Fields(s), "") }
+	text, pattern = nows(text), nows(pattern)
+	var re strings.Builder
+	var vars []string
+	last := 0
+	for _, loc := range c17var.FindAllStringIndex(pattern, -1) {
+		re.WriteString(regexp.QuoteMeta(pattern[last:loc[0]]))
+		re.WriteString(`(_L[0-9]+_)`)
+		vars = append(vars, pattern[loc[0]+1:loc[1]])
+		last = loc[1]
+	}
+	re.WriteString(regexp.QuoteMeta(pattern[last:]))
+	expr := re.String()
+	if whole {
+		expr = "^" + expr + "$"
+	}
+	for _, m := range regexp.MustCompile(expr).FindAllStringSubmatch(text, -1) {
+		got := map[string]string{}
+		ok := true
+		for i, v := range vars {
+			val := m[i+1]
+			if b, bound := bind[v]; bound && b != val {
+				ok = false
+			}
+			if g, seen := got[v]; seen && g != val {
+				ok = false
+			}
+			got[v] = val
+		}
+		if ok {
+			for v, val := range got {
+				bind[v] = val
+			}
+			return true
+		}
+	}
+	return false
+}
+
 // collections/consistent/consistent.go: ReplicaCount, the FNV-1a literals and step order of hashKey, the
 // replica-key format of AddNode/RemoveNode, the comparison of the binary search, and whether RemoveNode's
 // delete is guarded by an ownership test.
+// Every method is read in its alpha-normalised form (`normalise`, c07.go) and its locals are identified by the role they
+// play (c17match), so the names chosen for receivers, parameters and locals do not matter; fields (circle, nodes,
+// sortedHash), methods, functions and constants are matched by their own names.
 func extractC17(repo string, o *Out) {
 	p, err := load(repo, "collections/consistent")
 	if err != nil {
@@ -26,23 +78,43 @@ func extractC17(repo string, o *Out) {
 	if fd := p.Func("Consistent", "hashKey"); fd == nil {
 		o.problem("method Consistent.hashKey not found")
 	} else {
+		restore := p.normalise(fd)
+		// `hash` is the local the function returns
+		hash := map[string]string{}
+		nret := 0
+		ast.Inspect(fd.Body, func(n ast.Node) bool {
+			if _, lit := n.(*ast.FuncLit); lit {
+				return false
+			}
+			if r, ok := n.(*ast.ReturnStmt); ok {
+				nret++
+				if len(r.Results) != 1 || !c17match(p.Src(r.Results[0]), "$hash", true, hash) {
+					nret = -100
+				}
+			}
+			return true
+		})
+		if nret < 1 {
+			o.problem("hashKey: does not return one local variable (the running `hash`)")
+			hash["hash"] = "?"
+		}
 		var steps []string
 		ast.Inspect(fd.Body, func(n ast.Node) bool {
 			switch x := n.(type) {
 			case *ast.ValueSpec:
-				if len(x.Names) == 1 && x.Names[0].Name == "hash" && len(x.Values) == 1 {
+				if len(x.Names) == 1 && x.Names[0].Name == hash["hash"] && len(x.Values) == 1 {
 					if v, ok := p.ConstOf(x.Values[0]); ok {
 						offset, _ = constant.Uint64Val(constant.ToInt(v))
 					}
 					_, bits, _ = p.IntType(x.Values[0])
 				}
 			case *ast.AssignStmt:
-				if len(x.Lhs) == 1 && p.Src(x.Lhs[0]) == "hash" && len(x.Rhs) == 1 {
+				if len(x.Lhs) == 1 && p.Src(x.Lhs[0]) == hash["hash"] && len(x.Rhs) == 1 {
 					switch x.Tok {
 					case token.XOR_ASSIGN:
 						steps = append(steps, "xor")
-						if s := p.Src(x.Rhs[0]); s != "uint32(c)" {
-							o.problem("hashKey: xor operand is %s, expected uint32(c)", s)
+						if s := p.Src(x.Rhs[0]); !c17match(s, "uint32($c)", true, map[string]string{}) {
+							o.problem("hashKey: xor operand is %s, expected uint32(c)", renumberDecl(s))
 						}
 					case token.MUL_ASSIGN:
 						steps = append(steps, "mul")
@@ -59,6 +131,7 @@ func extractC17(repo string, o *Out) {
 			return true
 		})
 		order = strings.Join(steps, "-")
+		restore()
 	}
 	o.nat("fnvOffset", offset, "initial value of `hash` in Consistent.hashKey")
 	o.nat("fnvPrime", prime, "multiplier of `hash *=` in Consistent.hashKey")
@@ -67,17 +140,40 @@ func extractC17(repo string, o *Out) {
 
 	// replica key formats + loop shape of AddNode / RemoveNode. AddNode: one fmt.Sprintf(format, node, i); RemoveNode:
 	// one with `node` (the points it deletes) and at most one with `name` (the points it gives back to the
-	// remaining members); every index loop is `for i := 0; i < ReplicaCount; i++`.
+	// remaining members); every index loop is `for i := 0; i < ReplicaCount; i++`, and the `i` of each Sprintf is the
+	// index of the loop around it. `node` is the method's parameter (_p0), `name` the variable of the give-back loop.
 	formats := func(recv, name string) (byArg map[string]string, fd *ast.FuncDecl) {
 		byArg = map[string]string{}
 		fd = p.Func(recv, name)
-		if fd == nil {
+		if fd == nil || fd.Body == nil {
 			o.problem("method %s.%s not found", recv, name)
+			fd = nil
 			return
 		}
+		defer p.normalise(fd)()
+		var loops []*ast.ForStmt
+		index := map[*ast.ForStmt]string{}
+		ast.Inspect(fd.Body, func(n ast.Node) bool {
+			if fs, ok := n.(*ast.ForStmt); ok {
+				b := map[string]string{}
+				if fs.Init == nil || fs.Cond == nil || fs.Post == nil || !c17match(p.Src(fs.Init), "$i := 0", true, b) ||
+					!c17match(p.Src(fs.Cond), "$i < ReplicaCount", true, b) || !c17match(p.Src(fs.Post), "$i++", true, b) {
+					o.problem("%s: replica loop is not `for i := 0; i < ReplicaCount; i++`", name)
+				}
+				loops = append(loops, fs)
+				index[fs] = b["i"]
+			}
+			return true
+		})
 		for _, c := range p.Calls(fd, "fmt.Sprintf") {
-			if len(c.Args) != 3 || p.Src(c.Args[2]) != "i" {
-				o.problem("%s: fmt.Sprintf call is not (format, <member>, i): %s", name, p.Src(c))
+			inner := "" // the index of the innermost loop around the call
+			for _, fs := range loops {
+				if fs.Body.Pos() <= c.Pos() && c.End() <= fs.Body.End() {
+					inner = index[fs]
+				}
+			}
+			if len(c.Args) != 3 || inner == "" || p.Src(c.Args[2]) != inner {
+				o.problem("%s: fmt.Sprintf call is not (format, <member>, i): %s", name, renumberDecl(p.rawLine(c)))
 				continue
 			}
 			arg := p.Src(c.Args[1])
@@ -94,22 +190,14 @@ func extractC17(repo string, o *Out) {
 			}
 			byArg[arg] = f
 		}
-		ast.Inspect(fd.Body, func(n ast.Node) bool {
-			if fs, ok := n.(*ast.ForStmt); ok {
-				if fs.Init == nil || p.Src(fs.Init) != "i := 0" || p.Src(fs.Cond) != "i < ReplicaCount" || p.Src(fs.Post) != "i++" {
-					o.problem("%s: replica loop is not `for i := 0; i < ReplicaCount; i++`", name)
-				}
-			}
-			return true
-		})
 		return
 	}
-	get := func(m map[string]string, arg, where string, required bool) string {
+	get := func(m map[string]string, arg, show, where string, required bool) string {
 		if f, ok := m[arg]; ok {
 			return f
 		}
 		if required {
-			o.problem("%s: no fmt.Sprintf(format, %s, i)", where, arg)
+			o.problem("%s: no fmt.Sprintf(format, %s, i)", where, show)
 		}
 		return "?"
 	}
@@ -118,32 +206,34 @@ func extractC17(repo string, o *Out) {
 		o.problem("AddNode: expected exactly one fmt.Sprintf(format, node, i)")
 	}
 	fr, rm := formats("Consistent", "RemoveNode")
-	for arg := range fr {
-		if arg != "node" && arg != "name" {
-			o.problem("RemoveNode: unexpected fmt.Sprintf(format, %s, i)", arg)
-		}
+	o.str("replicaFormatAdd", get(fa, "_p0", "node", "AddNode", true), "format literal of fmt.Sprintf in Consistent.AddNode")
+	o.str("replicaFormatRemove", get(fr, "_p0", "node", "RemoveNode", true), "format literal of fmt.Sprintf(…, node, i) in Consistent.RemoveNode")
+	if rm != nil {
+		defer p.normalise(rm)()
 	}
-	o.str("replicaFormatAdd", get(fa, "node", "AddNode", true), "format literal of fmt.Sprintf in Consistent.AddNode")
-	o.str("replicaFormatRemove", get(fr, "node", "RemoveNode", true), "format literal of fmt.Sprintf(…, node, i) in Consistent.RemoveNode")
 
 	// RemoveNode gives points back: after `delete(c.nodes, node)`, the names of c.nodes are collected, sorted with
 	// sort.Strings, and for every name and replica `if _, found := c.circle[key]; !found { c.circle[key] = name }`.
 	restores := false
+	giveBack := map[string]string{} // $names: the collected list, $name: the variable of the give-back loop
 	if rm != nil {
 		collect, sorted, put := 0, len(p.Calls(rm, "sort.Strings")), 0
 		ast.Inspect(rm.Body, func(n ast.Node) bool {
 			switch x := n.(type) {
 			case *ast.RangeStmt:
-				if p.Src(x.X) == "c.nodes" && x.Key != nil && p.Src(x.Key) == "name" && x.Value == nil {
-					if body := strings.ReplaceAll(p.Src(x.Body), " ", ""); strings.Contains(body, "names=append(names,name)") {
+				b := map[string]string{}
+				if p.Src(x.X) == "_r.nodes" && x.Key != nil && c17match(p.Src(x.Key), "$k", true, b) && x.Value == nil {
+					if c17match(p.Src(x.Body), "$names=append($names,$k)", false, b) {
 						collect++
+						giveBack["names"] = b["names"]
 					}
 				}
-				if p.Src(x.X) == "names" && x.Value != nil && p.Src(x.Value) == "name" {
+				if _, is := giveBack["names"]; is && x.Value != nil && c17match(p.Src(x.X), "$names", true, giveBack) && c17match(p.Src(x.Value), "$name", true, giveBack) {
 					ast.Inspect(x.Body, func(m ast.Node) bool {
+						b := map[string]string{"name": giveBack["name"]}
 						if is, ok := m.(*ast.IfStmt); ok && is.Init != nil && is.Else == nil &&
-							strings.ReplaceAll(p.Src(is.Init), " ", "") == "_,found:=c.circle[key]" && strings.ReplaceAll(p.Src(is.Cond), " ", "") == "!found" &&
-							len(is.Body.List) == 1 && strings.ReplaceAll(p.Src(is.Body.List[0]), " ", "") == "c.circle[key]=name" {
+							c17match(p.Src(is.Init), "_,$found:=_r.circle[$key]", true, b) && c17match(p.Src(is.Cond), "!$found", true, b) &&
+							len(is.Body.List) == 1 && c17match(p.Src(is.Body.List[0]), "_r.circle[$key]=$name", true, b) {
 							put++
 						}
 						return true
@@ -152,7 +242,12 @@ func extractC17(repo string, o *Out) {
 			}
 			return true
 		})
-		_, hasFmt := fr["name"]
+		for arg := range fr {
+			if arg != "_p0" && arg != giveBack["name"] {
+				o.problem("RemoveNode: unexpected fmt.Sprintf(format, %s, i)", renumberDecl(arg))
+			}
+		}
+		_, hasFmt := fr[giveBack["name"]]
 		switch {
 		case collect == 0 && sorted == 0 && put == 0 && !hasFmt:
 			restores = false
@@ -162,16 +257,17 @@ func extractC17(repo string, o *Out) {
 			var pos []string
 			for _, st := range rm.Body.List {
 				src := strings.ReplaceAll(p.Src(st), " ", "")
+				b := map[string]string{"names": giveBack["names"], "name": giveBack["name"]}
 				switch {
-				case src == "delete(c.nodes,node)":
+				case src == "delete(_r.nodes,_p0)":
 					pos = append(pos, "delnode")
-				case strings.HasPrefix(src, "forname:=rangec.nodes"):
+				case c17match(src, "for$k:=range_r.nodes", false, b) && strings.HasPrefix(src, "for"+b["k"]+":=range_r.nodes"):
 					pos = append(pos, "collect")
-				case src == "sort.Strings(names)":
+				case c17match(src, "sort.Strings($names)", true, b):
 					pos = append(pos, "sort")
-				case strings.HasPrefix(src, "for_,name:=rangenames"):
+				case strings.HasPrefix(src, "for_,"+b["name"]+":=range"+b["names"]):
 					pos = append(pos, "restore")
-				case src == "c.updateSortedHash()":
+				case src == "_r.updateSortedHash()":
 					pos = append(pos, "update")
 				}
 			}
@@ -183,21 +279,25 @@ func extractC17(repo string, o *Out) {
 		}
 	}
 	o.bool("removeRestores", restores, "RemoveNode puts the replica points that the remaining members (sorted by name) lack back on the ring")
-	o.str("replicaFormatRestore", get(fr, "name", "RemoveNode", restores), "format literal of fmt.Sprintf(…, name, i) in Consistent.RemoveNode (the give-back loop)")
+	nameArg := giveBack["name"]
+	if nameArg == "" {
+		nameArg = "?"
+	}
+	o.str("replicaFormatRestore", get(fr, nameArg, "name", "RemoveNode", restores), "format literal of fmt.Sprintf(…, name, i) in Consistent.RemoveNode (the give-back loop)")
 
 	// RemoveNode: is `delete(c.circle, key)` inside `if c.circle[key] == node { ... }` ?
 	guarded := false
 	if rm != nil {
 		dels, inIf := 0, 0
 		ast.Inspect(rm.Body, func(n ast.Node) bool {
-			if c, ok := n.(*ast.CallExpr); ok && p.Src(c.Fun) == "delete" && len(c.Args) == 2 && p.Src(c.Args[0]) == "c.circle" {
+			if c, ok := n.(*ast.CallExpr); ok && p.Src(c.Fun) == "delete" && len(c.Args) == 2 && p.Src(c.Args[0]) == "_r.circle" {
 				dels++
 			}
 			if is, ok := n.(*ast.IfStmt); ok {
-				cond := strings.ReplaceAll(p.Src(is.Cond), " ", "")
-				if cond == "c.circle[key]==node" || cond == "node==c.circle[key]" {
+				b := map[string]string{}
+				if c17match(p.Src(is.Cond), "_r.circle[$key]==_p0", true, b) || c17match(p.Src(is.Cond), "_p0==_r.circle[$key]", true, b) {
 					for _, c := range p.Calls(is.Body, "delete") {
-						if len(c.Args) == 2 && p.Src(c.Args[0]) == "c.circle" && p.Src(c.Args[1]) == "key" {
+						if len(c.Args) == 2 && p.Src(c.Args[0]) == "_r.circle" && p.Src(c.Args[1]) == b["key"] {
 							inIf++
 						}
 					}
@@ -217,10 +317,11 @@ func extractC17(repo string, o *Out) {
 	if fd := p.Func("Consistent", "search"); fd == nil {
 		o.problem("method Consistent.search not found")
 	} else {
+		restore := p.normalise(fd)
 		n := 0
 		ast.Inspect(fd.Body, func(x ast.Node) bool {
 			if is, ok := x.(*ast.IfStmt); ok {
-				if be, ok := is.Cond.(*ast.BinaryExpr); ok && p.Src(be.X) == "c.sortedHash[mid]" && p.Src(be.Y) == "hash" {
+				if be, ok := is.Cond.(*ast.BinaryExpr); ok && c17match(p.Src(be.X), "_r.sortedHash[$mid]", true, map[string]string{}) && p.Src(be.Y) == "_p0" {
 					cmp = be.Op.String()
 					n++
 				}
@@ -230,6 +331,7 @@ func extractC17(repo string, o *Out) {
 		if n != 1 {
 			o.problem("search: expected exactly one `c.sortedHash[mid] <op> hash` test, found %d", n)
 		}
+		restore()
 	}
 	o.str("searchCmp", cmp, "comparison `c.sortedHash[mid] <op> hash` that advances lo in Consistent.search")
 }
